@@ -507,6 +507,11 @@ def routes(shape):
     return res
 
 
+HISTORY_SHAPES = {"list3-after-refcall", "built-mixed-after-refcall", "list3-after-store", "built-str-after-store", "built-sparse", "assoc9"}
+CORE_ROUTES = {"assign", "param", "return", "prop-read", "prop-store", "clone", "in-array-str", "in-array-append", "from-array",
+               "in-keyed-literal", "static-prop-store", "param-array", "callback-array_map", "foreach-value", "reference"}
+
+
 def build_case(shape, route, mut, side):
     rname, decls, pre_php, pre_model, A, B, has_ref, sides, wrap = route
     label, path, act, php_stmt = mut
@@ -671,6 +676,8 @@ def main(ck):
         for _ in range(rounds):
             for sh in shapes(rng, quick):
                 for rt in routes(sh):
+                    if quick and sh.name in HISTORY_SHAPES and rt[0] not in CORE_ROUTES:
+                        continue      # shapes with a history before the copy: the quick tier runs them on the core routes, the thorough tier on all
                     for side in rt[7]:
                         target = rt[5] if side == "copy" else rt[4]
                         for mu in mutations(sh, target.is_var, not target.prefix):
